@@ -1,5 +1,5 @@
 use rusty_common::AtPos;
-use rusty_parser::{CaseExpression, ExpressionPos};
+use rusty_parser::{CaseExpression, ExpressionPos, ExpressionType, HasExpressionType};
 
 use super::post_conversion_linter::PostConversionLinter;
 use crate::core::{CanCastTo, LintError, LintErrorPos};
@@ -12,6 +12,14 @@ impl PostConversionLinter for SelectCaseLinter {
         case_expr: &CaseExpression,
         select_expr: &ExpressionPos,
     ) -> Result<(), LintErrorPos> {
+        // a CASE compares the value of SELECT CASE with its own:
+        // that value must be a number or a string, not a record or an array
+        if !matches!(
+            select_expr.expression_type(),
+            ExpressionType::BuiltIn(_) | ExpressionType::FixedLengthString(_)
+        ) {
+            return Err(LintError::TypeMismatch.at(select_expr));
+        }
         match case_expr {
             CaseExpression::Simple(expr) => {
                 if !expr.can_cast_to(select_expr) {
